@@ -17,11 +17,11 @@ func TestC18(t *testing.T) {
 		Meta: map[string]any{
 			"components": map[string]string{
 				"node.Node (startRPC: in-proc, IPC, HTTP, WS servers), rpc.Server registration and dispatch, every API object of node and the aqua service": "real, one child process per opt-in configuration",
-				"aqua.Aquachain (chain, tx pool, miner, filters, downloader APIs), keystore on disk with a locked and an unlocked account":            "real",
-				"RPC clients (rpcclient over in-proc pipe, unix socket, HTTP, WebSocket)":                                                            "real client library, loopback sockets, calls issued one at a time",
-				"p2p server":                                   "real but isolated (no discovery, no peers)",
-				"clock, scheduler":                             "real (the property has no timing or interleaving clause; calls are sequential)",
-				"signature observation":                        "guarded hook at the six keystore signing entry points, after the key has been found/decrypted",
+				"aqua.Aquachain (chain, tx pool, miner, filters, downloader APIs), keystore on disk with a locked and an unlocked account":                  "real",
+				"RPC clients (rpcclient over in-proc pipe, unix socket, HTTP, WebSocket)":                                                                   "real client library, loopback sockets, calls issued one at a time",
+				"p2p server":            "real but isolated (no discovery, no peers)",
+				"clock, scheduler":      "real (the property has no timing or interleaving clause; calls are sequential)",
+				"signature observation": "guarded hook at the six keystore signing entry points, after the key has been found/decrypted",
 				"clique development chain (-chain dev sealing)": "not deployed: block sealing there signs by design once mining is on",
 			},
 			"assumptions": []string{
